@@ -37,6 +37,12 @@ func indexedByteOf(v ssa.Value) (ssa.Value, bool) {
 // checkSkipOnlyIdentified: in the functions given, every `cursor + 1` whose cursor is itself used as an index into a
 // byte sequence is executed only where that very byte was compared equal to a constant.
 func checkSkipOnlyIdentified(c *Ctx, r *Report, rule string, fns []*ssa.Function) {
+	total := 0
+	defer func() {
+		if total == 0 {
+			r.Notes = append(r.Notes, rule+": no single-byte step of a payload cursor found in the decoder (the cursor arithmetic lives in a shape this rule does not cover); nothing decided by this rule")
+		}
+	}()
 	for _, fn := range fns {
 		cursors := map[ssa.Value]bool{}
 		allInstrs(fn, func(in ssa.Instruction) {
@@ -86,6 +92,7 @@ func checkSkipOnlyIdentified(c *Ctx, r *Report, rule string, fns []*ssa.Function
 				return
 			}
 			n++
+			total++
 			construct := fmt.Sprintf("%s cursor step#%d", shortFn(fn), n)
 			ok = guardedBy(bo, func(cond ssa.Value, truth bool) bool {
 				cmp, isCmp := cond.(*ssa.BinOp)
@@ -1187,4 +1194,85 @@ func helperReceivesFrom(callee *ssa.Function, field *types.Var) bool {
 		}
 	})
 	return found
+}
+
+// boundCall: a call of `target` found in root or in a same-package helper reached from root (to the given depth,
+// `go` and `defer` statements included); Resolve maps a value used at that call (a parameter of the helper, at any
+// level) back to the value it is bound to in root.
+type boundCall struct {
+	Call    ssa.CallInstruction
+	Fn      *ssa.Function
+	resolve func(v ssa.Value) ssa.Value
+}
+
+func (b boundCall) Resolve(v ssa.Value) ssa.Value { return b.resolve(v) }
+
+func callsThroughHelpers(root, target *ssa.Function, depth int) []boundCall {
+	var out []boundCall
+	seen := map[*ssa.Function]bool{}
+	var visit func(fn *ssa.Function, resolve func(ssa.Value) ssa.Value, d int)
+	visit = func(fn *ssa.Function, resolve func(ssa.Value) ssa.Value, d int) {
+		if seen[fn] || fn.Blocks == nil {
+			return
+		}
+		seen[fn] = true
+		defer delete(seen, fn)
+		for _, g := range append([]*ssa.Function{fn}, AnonFuncsDeep(fn)...) {
+			g := g
+			gres := resolve
+			if g != fn {
+				// inside a closure of fn: captured variables resolve to their bindings in fn first
+				gres = func(v ssa.Value) ssa.Value {
+					if fv, ok := v.(*ssa.FreeVar); ok {
+						if b := freeVarBinding(fv); b != nil {
+							return resolve(b)
+						}
+					}
+					if u, ok := v.(*ssa.UnOp); ok && u.Op == token.MUL {
+						if fv, ok := u.X.(*ssa.FreeVar); ok {
+							if a, ok := freeVarBinding(fv).(*ssa.Alloc); ok {
+								var stored ssa.Value
+								n := 0
+								for _, ref := range *a.Referrers() {
+									if st, ok := ref.(*ssa.Store); ok && st.Addr == a {
+										stored = st.Val
+										n++
+									}
+								}
+								if n == 1 {
+									return resolve(stored)
+								}
+							}
+						}
+					}
+					return resolve(v)
+				}
+			}
+			for _, ci := range callInstrs(g) {
+				h := ci.Common().StaticCallee()
+				if h == nil {
+					continue
+				}
+				if h == target {
+					out = append(out, boundCall{Call: ci, Fn: g, resolve: gres})
+					continue
+				}
+				if d <= 0 || h.Pkg != root.Pkg || len(h.Blocks) == 0 || h == root {
+					continue
+				}
+				args := ci.Common().Args
+				hres := func(v ssa.Value) ssa.Value {
+					for pi, p := range h.Params {
+						if (v == ssa.Value(p) || isParamValue(v, p)) && pi < len(args) {
+							return gres(args[pi])
+						}
+					}
+					return v
+				}
+				visit(h, hres, d-1)
+			}
+		}
+	}
+	visit(root, func(v ssa.Value) ssa.Value { return v }, depth)
+	return out
 }
